@@ -241,6 +241,18 @@ fn plugin_validate(text: &str) -> Result<(bool, Vec<String>), String> {
     Ok((vr["valid"].as_bool().unwrap_or(false), vr["errors"].as_array().map(|a| a.iter().map(|e| e.as_str().unwrap_or("").to_string()).collect()).unwrap_or_default()))
 }
 
+/// the `parse_mt` plugin handler on an MT text: the JSON it stores under its target
+fn plugin_parse(text: &str) -> Result<String, String> {
+    use dataflow_rs::engine::{AsyncFunctionHandler, FunctionConfig, Message};
+    let mut msg = Message::from_value(&serde_json::json!({}));
+    msg.data_mut()["mt"] = serde_json::Value::String(text.to_string());
+    msg.invalidate_context_cache();
+    let cfg = FunctionConfig::Custom { name: "parse_mt".into(), input: serde_json::json!({"source": "mt", "target": "out"}) };
+    let h = swift_mt_message::plugin::Parse;
+    block_on(h.execute(&mut msg, &cfg, Arc::new(datalogic_rs::DataLogic::new()))).map_err(|e| format!("{e:?}"))?;
+    Ok(msg.data()["out"].to_string())
+}
+
 /// C15 micro mode: the plugin's verdict on a VALID published message must not depend on what other
 /// threads are validating at the same moment.
 fn run_c15(idx: usize, rounds: usize) {
@@ -261,7 +273,22 @@ fn run_c15(idx: usize, rounds: usize) {
             return;
         }
     }
+    let parse_reference = plugin_parse(good);
     let mut hs = vec![];
+    {
+        // a caller parsing the valid message while the others validate (O3 under overlap)
+        let (g, pr) = (good.to_string(), parse_reference.clone());
+        hs.push(std::thread::spawn(move || {
+            let mut bad = vec![];
+            for r in 0..rounds.div_ceil(3) {
+                let got = plugin_parse(&g);
+                if got != pr {
+                    bad.push(format!("O3 parse_mt #{r} on a valid published message overlapping other calls returned something else than without overlap ({} vs {} bytes)", got.as_ref().map(|s| s.len()).unwrap_or(0), pr.as_ref().map(|s| s.len()).unwrap_or(0)));
+                }
+            }
+            bad
+        }));
+    }
     for who in 0..2 {
         let g = good.to_string();
         hs.push(std::thread::spawn(move || {
@@ -292,7 +319,7 @@ fn run_c15(idx: usize, rounds: usize) {
         }
     }
     if bad.is_empty() {
-        println!("MICRO-OK subject={idx} mt={mt} valid message validated {} times while a rule-violating one was being validated rounds={rounds} callers=3", 2 * rounds);
+        println!("MICRO-OK subject={idx} mt={mt} valid message validated {} times while a rule-violating one was being validated rounds={rounds} callers=4", 2 * rounds);
     } else {
         for b in &bad {
             println!("MICRO-VIOLATION subject={idx} mt={mt} {b}");
